@@ -20,31 +20,30 @@ Definition SSL_CLIENT_MSOC : list Z :=
   [22;3;1;0;45;1;0;0;41;3;1;193;252;213;163;109;147;221;126;11;69;103;63;236;121;133;251;188;63;214;96;194;
    206;132;133;8;27;129;33;188;170;16;251;0;0;2;0;24;1;0].
 
-Record pst := { p_compat : Z; p_hs : bool; p_base : bool; p_queue : list (list Z) }.
+(* hello_buf[83] (zeroed by g_slice_new0) and hello_len collect the server hello across reads *)
+Record pst := { p_compat : Z; p_hs : bool; p_base : bool; p_queue : list (list Z); p_hbuf : list Z; p_hlen : Z }.
 
-Definition pssl_init (c : Z) : pst := {| p_compat := c; p_hs := false; p_base := true; p_queue := [] |}.
+Definition pssl_init (c : Z) : pst :=
+  {| p_compat := c; p_hs := false; p_base := true; p_queue := []; p_hbuf := repZ 0 83; p_hlen := 0 |}.
 Definition pssl_hello (c : Z) : list Z := if c =? PS_MSOC then SSL_CLIENT_MSOC else SSL_CLIENT_GOOGLE.
 Definition pssl_hello_len (c : Z) : Z := if c =? PS_MSOC then 83 else 79.
 
-(** server_handshake_valid on the local array data[83] (uninitialised = G) after a read of [d] *)
-Definition pssl_valid (G c : Z) (d : list Z) : option bool :=
-  match mwrite (repZ G 83) 0 d with
-  | None => None
-  | Some data =>
-    if c =? PS_MSOC then
-      if lenZ d =? 83 then
-        match mwrite data 11 (repZ 0 32) with
-        | None => None
-        | Some d1 => match mwrite d1 44 (repZ 0 32) with
-                     | None => None
-                     | Some d2 => match mreadn d2 0 83 with Some x => Some (list_eqb x SSL_SERVER_MSOC) | None => None end
-                     end
-        end
-      else Some false
-    else if lenZ d =? 79 then
-      match mreadn data 0 79 with Some x => Some (list_eqb x SSL_SERVER_GOOGLE) | None => None end
-    else Some false
-  end.
+(** server_handshake_valid on hello_buf once hello_len bytes are there; returns the verdict and the buffer
+    (the MSOC variant blanks the random and session-id fields in place before comparing) *)
+Definition pssl_valid (c : Z) (hbuf : list Z) (len : Z) : option (bool * list Z) :=
+  if c =? PS_MSOC then
+    if len =? 83 then
+      match mwrite hbuf 11 (repZ 0 32) with
+      | None => None
+      | Some d1 => match mwrite d1 44 (repZ 0 32) with
+                   | None => None
+                   | Some d2 => match mreadn d2 0 83 with Some x => Some (list_eqb x SSL_SERVER_MSOC, d2) | None => None end
+                   end
+      end
+    else Some (false, hbuf)
+  else if len =? 79 then
+    match mreadn hbuf 0 79 with Some x => Some (list_eqb x SSL_SERVER_GOOGLE, hbuf) | None => None end
+  else Some (false, hbuf).
 
 (** nice_socket_flush_send_queue: every queued element is one reliable send on the base socket *)
 Fixpoint flush_queue {S} (q : list (list Z)) (p : prog S) : prog S :=
@@ -54,22 +53,34 @@ Fixpoint flush_queue {S} (q : list (list Z)) (p : prog S) : prog S :=
 Definition passthrough {S} (s : S) : prog S :=
   PRead false UPCAP (fun d => if lenZ d =? 0 then PDone s 0 else PUp d (-1) (PDone s 1)).
 
-Definition pssl_body (G : Z) (s : pst) : prog pst :=
+(* what happens after the hello read obtained [d] *)
+Definition pssl_hello_k (s : pst) (d : list Z) : prog pst :=
+  if lenZ d =? 0 then PDone s 0
+  else match mwrite (p_hbuf s) (p_hlen s) d with
+       | None => PFault
+       | Some hb =>
+         let len1 := p_hlen s + lenZ d in
+         if len1 <? pssl_hello_len (p_compat s) then
+           PDone {| p_compat := p_compat s; p_hs := false; p_base := true; p_queue := p_queue s; p_hbuf := hb; p_hlen := len1 |} 0
+         else match pssl_valid (p_compat s) hb len1 with
+              | None => PFault
+              | Some (true, hb') =>
+                  flush_queue (p_queue s)
+                    (PDone {| p_compat := p_compat s; p_hs := true; p_base := true; p_queue := []; p_hbuf := hb'; p_hlen := len1 |} 0)
+              | Some (false, hb') =>
+                  PDone {| p_compat := p_compat s; p_hs := false; p_base := false; p_queue := p_queue s; p_hbuf := hb'; p_hlen := len1 |} (-1)
+              end
+       end.
+
+Definition pssl_body (s : pst) : prog pst :=
   if p_hs s then (if p_base s then passthrough s else PDone s 0)
-  else if p_base s then
-    PRead true (pssl_hello_len (p_compat s)) (fun d =>
-      if lenZ d =? 0 then PDone s 0
-      else match pssl_valid G (p_compat s) d with
-           | None => PFault
-           | Some true => flush_queue (p_queue s)
-                            (PDone {| p_compat := p_compat s; p_hs := true; p_base := true; p_queue := [] |} 0)
-           | Some false => PDone {| p_compat := p_compat s; p_hs := false; p_base := false; p_queue := p_queue s |} (-1)
-           end)
+  else if p_base s then PRead false (w64 (pssl_hello_len (p_compat s) - p_hlen s)) (pssl_hello_k s)
   else PDone s (-1).
 
 Definition pssl_send (s : pst) (reliable : bool) (bufs : list (list Z)) : pst * list ev :=
   if p_hs s then
     if p_base s then (s, [Dn (concat bufs); Snd 1]) else (s, [Snd (-1)])
   else if reliable then
-    ({| p_compat := p_compat s; p_hs := p_hs s; p_base := p_base s; p_queue := queue_send (p_queue s) bufs |}, [Snd 1])
+    ({| p_compat := p_compat s; p_hs := p_hs s; p_base := p_base s; p_queue := queue_send (p_queue s) bufs;
+        p_hbuf := p_hbuf s; p_hlen := p_hlen s |}, [Snd 1])
   else (s, [Snd 0]).
